@@ -35,6 +35,9 @@ CHECKS = {
  "C08": dict(design="5/C08", technique="TLA+ CsrLayout spec derives the expected register file from field-name meaning; the ops emitted by the real convert_to_acc_ops are executed on IRMachine by TLC and compared field by field",
    text="For random and default streamer configurations (1-5 streamers, 1-6 temporal dims with n/i/r flags, 1-2 spatial dims, every option subset) on the alu-style accelerator, gemmx array sizes m/n/k with mac/qmac kernels (i32 output, zero-pointer C operand), the gemmx rescale-only kernel, snax_hwpe_mult and xDMA: the real convert_to_acc_ops output (constants, casts, and/shift/or packing) is run on IRMachine; the values feeding accfg.setup must be exactly one per declared field, in declared order, equal to CsrLayout.tla's expectation built from the names (pointers, padded bounds/strides with Reuse collapse, masks, transpose/broadcast flags, subtractions word, K*N*M = stream steps).",
    note="Stride patterns use distinct prime markers; 32-bit words beyond 2^30 (packed csr0/shift words with the top byte set) are uninterpreted on the machine and only checked for presence; known finding: hwpe_mult field names."),
+ "C05": dict(design="5/C05", technique="TLA+ IRMachine with byte memory and the DMA engine of snax_rt.h; TLC executes the code emitted by the real snax-copy-to-dma for every run-time descriptor and checks delivery and footprints against Layout.tla",
+   text="Generated memref.copy ops (rank 1-3, <=64 elements, i8..i64; layouts none / strided permuted-padded static-dynamic with offsets / tiled-strided with equal tile bounds, random level order, gaps, offsets; dynamic dims) are lowered by the real snax-copy-to-dma; the emitted arith/scf/memref-metadata code and snax_dma_1d/2d_transfer calls are executed on IRMachine over a tagged byte memory for every concrete descriptor alternative (dynamic sizes, strides, offsets); at termination every logical element must sit at the destination layout's address (ElementsDelivered) and all transfers stay inside the source / destination footprints.",
+   note="Known finding: dynamic strides assumed contiguous (witness known/C05); dynamic TSL steps are not generated."),
 }
 NA_REASON = "check not built yet in this round (planned: see DESIGN.md section 5); will be claimed once its TLA+ module and binding exist"
 def main():
